@@ -849,6 +849,7 @@ def shrink(ops, still_fails, max_evals=250):
 
 TX = "_x._tcp.local."
 TY = "_y._udp.local."
+TZ = "_Zed._tcp.local."   # a service type spelled with an upper-case letter
 IN = 1
 FE80_1 = "fe80" + "00" * 13 + "01"
 
@@ -870,6 +871,11 @@ VOCAB = [
     ["a", "h.local.", 28, IN, FE80_1],
     ["n", "h.local.", 47, IN, "h.local.", [1, 28]],
     ["h", "h.local.", 13, IN, "cpu", "os"],
+    # identities whose only spelling has upper-case letters (owner name, PTR target, SRV host): every lookup that
+    # forgets to lower-case a name misses them although they are spelled identically in every datagram
+    ["p", TZ, 12, IN, "D._Zed._tcp.local."],
+    ["s", "D._Zed._tcp.local.", 33, IN, 0, 0, 83, "Host.LOCAL."],
+    ["a", "Host.LOCAL.", 1, IN, "0a000004"],
 ]
 RARE = {14, 15}
 TTLS = [0, 1, 2, 120, 1124, 1125, 4500]
